@@ -80,6 +80,8 @@ func (o *Operations) Delete(name string) error {
 		hdr.Size = 0 // Don't try to seek after the record
 		hdr.PAXRecords[records.STFSRecordVersion] = records.STFSRecordVersion1
 		hdr.PAXRecords[records.STFSRecordAction] = records.STFSRecordActionDelete
+		delete(hdr.PAXRecords, records.STFSRecordReplacesName) // Don't inherit the records of the header's last update or move
+		delete(hdr.PAXRecords, records.STFSRecordReplacesContent)
 
 		hdrs = append(hdrs, *hdr)
 
